@@ -210,15 +210,20 @@ ev_setbuf(int n)
 	KQ_FAULT_RESULT(rv, &sock.wq);
 	CHECK(rv == 0, "setting the send buffer succeeds");
 	/* messages dropped by a shrink are lost by request of the application */
+	int newly_lost = 0;
 	for (int i = 0; i < MAXU; i++)
 		if (accepted[i] && !delivered[i] && !lost[i] && in_wq(umsg_id[i]) == 0) {
 			int onwire = 0;
 			for (int p = 0; p < MAXP; p++)
 				if (kpipe_up[p] && kpipe[p].wire_msg != NULL && kpipe[p].wire_msg->id == umsg_id[i])
 					onwire = 1;
-			if (!onwire)
+			if (!onwire) {
 				lost[i]++;
+				newly_lost++;
+			}
 		}
+	CHECK(newly_lost == (ksn_len > (size_t) n ? (int) (ksn_len - (size_t) n) : 0),
+	    "C06/C18: changing the send buffer discards exactly as many accepted messages as no longer fit - none when it grows");
 	monitor();
 }
 static void
@@ -277,5 +282,10 @@ harness(void)
 	SKEL
 	if (!kstop)
 		WITNESS("skeleton ran to its end");
+#ifdef MUSTEND
+	/* a curated skeleton whose every event is applicable on the library as it should be: an event that finds nothing to act
+	 * on (e.g. no transfer outstanding because a message vanished) is a failure, not the end of the skeleton */
+	CHECK(!kstop, "every event of the skeleton found the library in the state the previous events must have left it in");
+#endif
 	WITNESS("end");
 }
